@@ -307,4 +307,42 @@ def quantize (uni : Str → Str) (c : Chart) : Chart :=
   { md := qMeta uni c.md, bpms := c.bpms.map qBpm, svs := c.svs,
     hits := ((sortedObjs c).filterMap objHit).map qHit, holds := ((sortedObjs c).filterMap objHold).map qHold }
 
+/-! ### "the same chart with times moved by less than 1 ms" — stated about whole charts, without `quantize` -/
+
+/-- element-wise relation between two lists of the same length -/
+def AllRel {α} (r : α → α → Prop) : List α → List α → Prop
+  | [], [] => True
+  | a :: as, b :: bs => r a b ∧ AllRel r as bs
+  | _, _ => False
+
+/-- `b` is the hit `a` at a time less than 1 ms away; column, hitsound fields and file untouched -/
+def HitMoved (a b : Hit) : Prop :=
+  -1 < b.offset - a.offset ∧ b.offset - a.offset < 1 ∧ b = { a with offset := b.offset }
+
+/-- `b` is the hold `a` with head and tail each less than 1 ms away; everything else untouched -/
+def HoldMoved (a b : Hold) : Prop :=
+  -1 < b.offset - a.offset ∧ b.offset - a.offset < 1 ∧
+  -1 < (b.offset + b.length) - (a.offset + a.length) ∧ (b.offset + b.length) - (a.offset + a.length) < 1 ∧
+  b = { a with offset := b.offset, length := b.length }
+
+def SampleMoved (a b : Sample) : Prop :=
+  -1 < b.offset - a.offset ∧ b.offset - a.offset < 1 ∧ b = { a with offset := b.offset }
+
+/-- `c'` denotes the same chart as `c` at millisecond resolution: its hits / holds are those of `c` in some order
+(`List.Perm`: nothing lost, nothing invented, nothing duplicated), each at a time less than 1 ms away with all other
+fields equal; tempo points are the same points in the same order (time and bpm exactly; the meter as `int()`); scroll
+velocities are identical; the sample events are the same events in the same order, each less than 1 ms away; the
+metadata is `qMeta` (text trimmed, tags re-tokenised, numbers identical). -/
+structure SameChart1ms (uni : Str → Str) (c c' : Chart) : Prop where
+  hits : ∃ p, p.Perm c.hits ∧ AllRel HitMoved p c'.hits
+  holds : ∃ p, p.Perm c.holds ∧ AllRel HoldMoved p c'.holds
+  bpms : c'.bpms = c.bpms.map qBpm
+  bpmTimes : c'.bpms.map (fun b => (b.offset, b.bpm)) = c.bpms.map (fun b => (b.offset, b.bpm))
+  svs : c'.svs = c.svs
+  samples : AllRel SampleMoved c.md.samples c'.md.samples
+  md : c'.md = { qMeta uni c.md with samples := c'.md.samples }
+
+/-- the objects of a chart are in time order when the hits and holds, merged, are -/
+def TimeOrdered (os : List Obj) : Prop := os.Pairwise (fun a b => a.offset ≤ b.offset)
+
 end Reamber.Osu
